@@ -486,8 +486,19 @@ impl Machine {
                 .expect("dsp function not found"),
         );
         if let Some(plan) = patch_plan {
+            // The dsp storage is sized on the first dsp call; before that (a swap ahead of the
+            // first sample) it is still empty although the plan addresses the whole old layout.
+            // Untouched cells are zero, so migrate from a zero-extended copy.
+            let old_size = self
+                .prog
+                .get_dsp_state_skeleton()
+                .map_or(0, |s| s.total_size() as usize);
+            let mut old_storage = self.global_states.rawdata.clone();
+            if old_storage.len() < old_size {
+                old_storage.resize(old_size, 0);
+            }
             new_vm.global_states.rawdata =
-                state_tree::apply_state_storage_patch_plan(&self.global_states.rawdata, &plan);
+                state_tree::apply_state_storage_patch_plan(&old_storage, &plan);
         } else {
             log::info!("No state structure change detected. Just copies buffer");
             new_vm.global_states.rawdata = self.global_states.rawdata.clone();
